@@ -242,7 +242,20 @@ class XMLSchemaConverter(NamespaceMapper):
         """
         if self.attr_prefix is not None and attributes:
             for name, value in attributes:
-                yield self.attr_prefix + self.map_qname(name), value
+                key = self.map_qname(name)
+                if name[:1] == '{' and self._use_namespaces and \
+                        key == name[name.index('}') + 1:]:
+                    # The default namespace never applies to attributes: an unprefixed
+                    # key denotes the attribute in no namespace. Use another prefix
+                    # bound to the namespace, or keep the extended name.
+                    namespace = name[1:name.index('}')]
+                    for prefix in reversed(self.namespaces.keys()):
+                        if prefix and self.namespaces[prefix] == namespace:
+                            key = f'{prefix}:{key}'
+                            break
+                    else:
+                        key = name
+                yield self.attr_prefix + key, value
 
     def map_content(self, content: Iterable[tuple[str, Any, Any]]) \
             -> Iterator[tuple[str, Any, Any]]:
